@@ -233,7 +233,7 @@ func (u *Unit) discharge(o *Obligation, cfg *solverCfg, seq int) {
 	quickDone := false
 	if o.Expect == "unsat" && !cfg.agree {
 		// attempt 0: the full query, first solver, short budget (most obligations end here)
-		res, out, el := runSolver(solvers[0], file, time.Duration(2*cfg.sc())*time.Second)
+		res, out, el := runSolver(solvers[0], file, time.Duration(3*cfg.sc())*time.Second)
 		if res == "unsat" || res == "sat" {
 			o.Result, o.Backend, o.TimeS, o.Output = res, solvers[0].name, el, fmt.Sprintf("[%s] %s", solvers[0].name, strings.TrimSpace(firstLines(out, 3)))
 			quickDone = true
